@@ -207,8 +207,24 @@ def _ev_atoms(test: ast.AST, val: Dict[str, bool], atoms: Sequence[Atom]) -> boo
     raise Unknown(f"test `{ast.unparse(test)}` is not a boolean combination of the known atoms")
 
 
-def decision_table(stmts: Sequence[ast.stmt], atoms: Sequence[Atom], outputs: Sequence[str], normalise: Callable[[ast.AST], str]) -> Dict[Tuple[bool, ...], Dict[str, str]]:
-    """For every valuation of the atoms, the final value (normalised text) of each output variable."""
+def _block_raises(block) -> bool:
+    if not block:
+        return False
+    last = block[-1]
+    if isinstance(last, ast.Raise):
+        return True
+    if isinstance(last, ast.Expr) and isinstance(last.value, ast.Call) and (dotted(last.value.func) or "").split(".")[-1] in ("fail", "failer"):
+        return True
+    if isinstance(last, ast.If):
+        return _block_raises(last.body) and _block_raises(last.orelse)
+    return False
+
+
+def decision_table(stmts: Sequence[ast.stmt], atoms: Sequence[Atom], outputs: Sequence[str], normalise: Callable[[ast.AST], str], tolerant: bool = False) -> Dict[Tuple[bool, ...], Dict[str, str]]:
+    """For every valuation of the atoms, the final value (normalised text) of each output variable.
+    Outputs may be local names or attribute stores (`leaf.vis`).  With tolerant=True the block may contain
+    other work: statements that do not assign an output are skipped, and an `if` over something that is not
+    a combination of the atoms is followed along its non-raising branch when the other branch raises (a guard)."""
     table = {}
     names = [a[0] for a in atoms]
     for bits in itertools.product((False, True), repeat=len(atoms)):
@@ -218,15 +234,29 @@ def decision_table(stmts: Sequence[ast.stmt], atoms: Sequence[Atom], outputs: Se
         def run(block):
             for st in block:
                 if isinstance(st, ast.If):
-                    run(st.body if _ev_atoms(st.test, val, atoms) else st.orelse)
-                elif isinstance(st, ast.Assign) and len(st.targets) == 1 and isinstance(st.targets[0], ast.Name):
+                    try:
+                        t = _ev_atoms(st.test, val, atoms)
+                    except Unknown:
+                        if not tolerant:
+                            raise
+                        if _block_raises(st.body) and not _block_raises(st.orelse):
+                            t = False
+                        elif _block_raises(st.orelse) and not _block_raises(st.body):
+                            t = True
+                        elif not any(isinstance(x, ast.Assign) and ast.unparse(x.targets[0]) in set(outputs) | set(env) for b in (st.body, st.orelse) for s2 in b for x in ast.walk(s2)):
+                            continue  # touches no output
+                        else:
+                            raise
+                    run(st.body if t else st.orelse)
+                elif isinstance(st, ast.Assign) and len(st.targets) == 1 and isinstance(st.targets[0], (ast.Name, ast.Attribute)):
                     v = st.value
+                    key = st.targets[0].id if isinstance(st.targets[0], ast.Name) else ast.unparse(st.targets[0])
                     if isinstance(v, ast.IfExp):
                         v = v.body if _ev_atoms(v.test, val, atoms) else v.orelse
                     if isinstance(v, ast.Name) and v.id in env:
-                        env[st.targets[0].id] = env[v.id]
+                        env[key] = env[v.id]
                     else:
-                        env[st.targets[0].id] = normalise(v)
+                        env[key] = normalise(v)
                 elif isinstance(st, ast.Pass) or (isinstance(st, ast.Expr) and isinstance(st.value, ast.Constant)):
                     continue
                 elif isinstance(st, ast.Return):
@@ -239,6 +269,8 @@ def decision_table(stmts: Sequence[ast.stmt], atoms: Sequence[Atom], outputs: Se
                 elif isinstance(st, ast.Raise):
                     env["<return>"] = "RAISE"
                     raise _Return(None)
+                elif tolerant:
+                    continue
                 else:
                     raise Unknown(f"statement `{ast.unparse(st).splitlines()[0]}` in a decision block")
 
